@@ -11,7 +11,7 @@ EXPLANATION = ("B1 identifier octet - the writer composes "
                "parser returns the slice after the announced length as remainder in both the primitive and the constructed arm, and the "
                "encoder leaves in its output buffer, on every path, what the buffer held before, the identifier octets of (class, structure of the payload, id), "
                "length octets and the content - the payload octets, resp. the encodings of the children in order -, read off the final buffer (a rope of "
-               "segments with positions as formal sums of segment lengths, rules/rope.py), so it does not matter whether the length is written before the content or a "
+               "segments with positions as formal sums of segment lengths, rules/rope.py; a length that is computed by a sizing pass instead of measured - the sum of SZ(child) - is accepted iff SZ(t) = octets appended for t, proved by induction over the tree with the identifier / length octet counts predicted vs written decided on the threshold partition: B4.encoder-sizing), so it does not matter whether the length is written before the content or a "
                "placeholder is patched / replaced / inserted afterwards; the length octets are write_length(L), constants or L's low octet with L formally the content length, "
                "and are evaluated at every change point of the partition induced by the branch conditions on L and by write_length's own against the minimal definite form; B7 the TLV parser's children loop ends only when the content is used up, keeps every child and continues with its remainder, and every error path is the failure of one of its primitives or the nesting bound; B2m/B5 the two arithmetic functions - "
                "write_length and the INTEGER/ENUMERATED content encoder - are functions of one integer whose every branch condition is a "
@@ -195,6 +195,299 @@ def length_in_var(t, latom):
             return absx.bin_term('Add', LVAR, ('lit', r))
     return tuple(length_in_var(x, latom) for x in t)
 
+IDVAR = ('var', 'T')
+SUM = 'core::iter::traits::iterator::Iterator::sum'
+
+def replace_terms(t, fn):
+    """t with every sub-term for which fn answers a term replaced by that answer (outermost first)"""
+    r = fn(t)
+    if r is not None:
+        return r
+    if not isinstance(t, tuple):
+        return t
+    return tuple(replace_terms(x, fn) if isinstance(x, tuple) else x for x in t)
+
+def sizing_sum(t, src, facts):
+    """t is  sum over the elements el of `src` of SZ(el)  for a function SZ of the workspace: SZ, else None"""
+    if t[0] == 'call' and t[1] == SUM and len(t[2]) == 1 and t[2][0][0] == 'many' and t[2][0][1] == src:
+        m = t[2][0]
+        if m[3][0] == 'call' and m[3][1] in facts.hir and m[3][2] == (m[2],):
+            return m[3][1]
+    return None
+
+def emitted_count(f, W, pname, v, cache):
+    """How many octets the writer function W appends when its integer parameter `pname` is the literal v and its other parameters are
+    unknown: W's typed HIR is interpreted exactly on the literal (conditions and arithmetic fold, loops run as often as their
+    literal conditions say) and the octets are counted off the write / push / extend events.  An integer, or a string saying why
+    the count is not decided (more than one path: the count depends on something else; a panic; a slice of unknown length)."""
+    key = (W.path, v)
+    if key in cache:
+        return cache[key]
+    pb = [b for b, d in W.defs.items() if d['kind'] == 'param' and d['name'] == pname]
+    I = absx.Interp(f, W, unroll=70, combinators=True)
+    env = I.param_env()
+    env[pb[0]] = ('lit', v)
+    res = [o for o in I.run(env=env) if o.kind in ('val', 'ret', 'div', 'loop')]
+    if len(res) != 1 or res[0].kind not in ('val', 'ret'):
+        cache[key] = 'paths: %s' % [o.kind for o in res]
+        return cache[key]
+    n = 0
+    for e in res[0].st.ev:
+        # (what goes to the sink the function was given - a parameter -, not to a vector of its own)
+        if e[0] == 'call' and e[1].rsplit('::', 1)[-1] in ('write', 'write_all', 'push', 'extend_from_slice', 'extend') and len(e[2]) == 2 and e[2][0][0] == 'param':
+            a = e[2][1]
+            if a[0] in ('array', 'vec'):
+                n += len(a[1])
+            elif a[0] == 'lit' and isinstance(a[1], bytes):
+                n += len(a[1])
+            elif e[1].rsplit('::', 1)[-1] == 'push':
+                n += 1
+            else:
+                cache[key] = 'octets of unknown number: %s' % absx.fmt(a)[:60]
+                return cache[key]
+    cache[key] = n
+    return n
+
+def check_sizing(ctx, f, E, SZ, TAGF, per, pts_enc, pts_wl, WT, WLN):
+    """B4 (encoder, declared length computed instead of measured).  The encoder hands write_length not the length of a buffer that
+    holds the content but  sum over the children of SZ(child),  SZ a function of the workspace (a sizing pass).  The declared
+    length is right iff for every tag tree t   SZ(t) = number of octets the encoder appends for t.   By induction over the tree:
+    the encoder appends (its own paths, read above)  identifier(t.id) ++ LENGTH(L) ++ content of L octets,  L = the payload's length
+    resp. the sum of what it appends for the children; SZ's paths are enumerated with the payload's length resp. the sum of SZ over
+    the children - equal to L by the induction hypothesis - standing for L.  What is left is a claim about two integers,
+        SZ(id, L) = #identifier octets written for id + #length octets written for L + L      for all id, L in 0..2^64-1,
+    decided by the threshold-partition method: every path of SZ must depend on id and on L only through step functions (comparisons
+    of the shifted variable with constants, ilog2 / leading_zeros ..., arithmetic over those - rules/thresholds.py) and return
+    constant + step(id) + step(L) + L, so that the region of a path is a rectangle on which both sides are separable; both are
+    then evaluated at every change point of either side and its neighbours - along one row and one column of every rectangle -,
+    the written counts by exact literal evaluation of write_type / write_length (the encoder's own constant length octets counted
+    as they are).  Rectangles must cover the domain; a path that is cut off, panics or has another shape and is live at some
+    point fails closed."""
+    S = hirq.Body(f, f.hir[SZ])
+    ctx.analysed['bodies'].add(SZ)
+    name = SZ.rsplit('::', 1)[-1]
+    R = 'B4.encoder-sizing'
+    tp = [('param', d['name']) for b, d in S.defs.items() if d['kind'] == 'param' and not d['proj']]
+    if len(tp) != 1 or hirq.strip_refs((([d for b, d in S.defs.items() if d['kind'] == 'param' and not d['proj']][0].get('pat') or {}).get('ty')) or '') != 'lber::structure::StructureTag':
+        ctx.fail(R + '.form', name, loc(S.root), 'the encoder declares a length computed by %s, which is not a function of one tag tree: that the declared length is the number of content octets is not decided' % name)
+        return
+    T = tp[0]
+    PAYL, IDF = ('field', T, 'payload'), ('field', T, 'id')
+    def to_vars(t, prim):
+        def fn(x):
+            if x == IDF:
+                return IDVAR
+            if x[0] == 'cast' and hirq.strip_refs(str(x[2] or '')) in ('usize', 'u64'):
+                y = fn(x[1])
+                if y == LVAR:
+                    return LVAR             # a length (0 <= L < 2^64) converted between usize and u64 is the same number
+            if prim is True and x[0] == 'call' and x[1].rsplit('::', 1)[-1] == 'len' and x[2] == (('variant', PAYL, 'PL::P', 0),):
+                return LVAR
+            if prim is False and sizing_sum(x, ('variant', PAYL, 'PL::C', 0), f) == SZ:
+                return LVAR                 # induction hypothesis: SZ(child) octets are appended for every child
+            return None
+        return replace_terms(sem.strip_site(t), fn)
+    paths = {True: [], False: []}            # structure -> [(id atoms, L atoms, (c, id terms, L terms) | why-not)]
+    for o in absx.Interp(f, S, unroll=11, combinators=True).run():
+        prim = sem.variant_truth(o.st.pc, lambda t: t == PAYL, 'PL::P', ['PL::P', 'PL::C'])
+        ida, la, why = [], [], None
+        for a, t in o.st.pc:
+            if a[0] == 'is' and a[1] == PAYL:
+                continue
+            a2 = to_vars(a, prim)
+            mi, ml = thresholds.mentions(a2, IDVAR), thresholds.mentions(a2, LVAR)
+            if mi and not ml and thresholds.step_ok(a2, IDVAR):
+                ida.append((a2, t))
+            elif ml and not mi and thresholds.step_ok(a2, LVAR):
+                la.append((a2, t))
+            elif not mi and not ml and thresholds.step_ok(a2, LVAR):
+                if thresholds.fold(a2, LVAR, 0) != ('lit', t):
+                    why = 'infeasible'
+            else:
+                why = 'a condition that is not a step function of the tag number alone or of the content length alone: %s' % absx.fmt(a2)[:80]
+        val = None
+        if why is None:
+            if o.kind not in ('val', 'ret'):
+                why = {'loop': 'a loop that is not finished after 11 iterations', 'div': 'a panic'}.get(o.kind, o.kind)
+            elif prim is None:
+                why = 'a path that does not look at the payload'
+            else:
+                d, c = rope.lin_of(to_vars(o.val, prim))
+                idt, lt = [], []
+                if d.pop(LVAR, None) != 1:
+                    why = 'the result is not the content length plus something: %s' % absx.fmt(to_vars(o.val, prim))[:80]
+                for a, k in d.items():
+                    mi, ml = thresholds.mentions(a, IDVAR), thresholds.mentions(a, LVAR)
+                    if mi and not ml and thresholds.step_ok(a, IDVAR):
+                        idt.append((a, k))
+                    elif ml and not mi and thresholds.step_ok(a, LVAR):
+                        lt.append((a, k))
+                    else:
+                        why = 'a summand that is not a step function of the tag number alone or of the content length alone: %s' % absx.fmt(a)[:80]
+                val = (c, idt, lt)
+        if why == 'infeasible':
+            continue
+        for k in ((prim,) if prim is not None else (True, False)):
+            paths[k].append((ida, la, val if why is None else None, why))
+    # the octets actually written
+    Wt, Wl = hirq.Body(f, f.body(WT)), hirq.Body(f, f.body(WLN))
+    idp = [d['name'] for b, d in Wt.defs.items() if d['kind'] == 'param' and (d.get('pat') or {}).get('ty') == 'u64']
+    lnp = [d['name'] for b, d in Wl.defs.items() if d['kind'] == 'param' and (d.get('pat') or {}).get('ty') == 'usize']
+    if len(idp) != 1 or len(lnp) != 1:
+        ctx.fail('anchor-missing', 'identifier / length writer parameters', loc(S.root), 'write_type must take one u64 (the tag number), write_length one usize (the length)')
+        return
+    # write_type's own change points: its conditions on the tag number must be thresholds
+    # (whether the k-th pop of a vector whose elements are listed yields Some depends on how many there are, not on their values)
+    def shape_only(x):
+        if x[0] == 'is' and x[1][0] == 'nth' and x[1][1][0] in ('vec', 'array') and x[1][2] == 'pop':
+            return ('is', ('nth', (x[1][1][0], len(x[1][1][1])), 'pop') + tuple(x[1][3:])) + tuple(x[2:])
+        return None
+    wt_atoms = [a for o in absx.Interp(f, Wt, unroll=11).run() for a, t in o.st.pc if sem.has(replace_terms(a, shape_only), lambda x: x == ('param', idp[0]))]
+    bad = [absx.fmt(a) for a in wt_atoms if not thresholds.atom_ok(a, ('param', idp[0]))]
+    ctx.add(R + '.identifier-writer-conditions-are-thresholds', 'write_type', loc(Wt.root), not bad, 'branch conditions of the identifier writer that are not comparisons of (id >> k) with a constant: %s' % bad[:3])
+    if bad:
+        return
+    cache = {}
+    def written_id(v):
+        return emitted_count(f, Wt, idp[0], v, cache)
+    def written_len(prim, v):
+        """number of length octets the encoder leaves between identifier and content at content length v"""
+        ns = set()
+        for conds, items in per[prim]:
+            holds = True
+            for a, t in conds:
+                r = thresholds.subst(a, LVAR, v)
+                if r not in (('lit', True), ('lit', False)):
+                    return 'condition not decided at %d' % v
+                if r[1] != t:
+                    holds = False; break
+            if holds:
+                n = 0
+                for it in items:
+                    if it[0] == 'wl':
+                        w = emitted_count(f, Wl, lnp[0], v, cache)
+                        if not isinstance(w, int):
+                            return w
+                        n += w
+                    else:
+                        n += 1
+                ns.add(n)
+        return ns.pop() if len(ns) == 1 else 'paths of the encoder: %d' % len(ns)
+    MAXV = 2 ** 64 - 1
+    id_pts = thresholds.step_points([a for k in paths for p in paths[k] for a, t in p[0]] + [a for k in paths for p in paths[k] if p[2] for a, c in p[2][1]], IDVAR, 0, MAXV,
+                                    extra=thresholds.change_points(wt_atoms, ('param', idp[0]), 0, MAXV))
+    l_pts = thresholds.step_points([a for k in paths for p in paths[k] for a, t in p[1]] + [a for k in paths for p in paths[k] if p[2] for a, c in p[2][2]], LVAR, 0, MAXV,
+                                   extra=list(pts_enc) + list(pts_wl))
+    def live(atoms, var, v):
+        for a, t in atoms:
+            try:
+                r = thresholds.fold(a, var, v)
+            except thresholds.Panics:
+                return None
+            if r not in (('lit', True), ('lit', False)):
+                return None
+            if r[1] != t:
+                return False
+        return True
+    def value(terms, var, v):
+        n = 0
+        for a, k in terms:
+            r = thresholds.fold(a, var, v)
+            if r[0] != 'lit' or not isinstance(r[1], int):
+                raise thresholds.Panics('not a number: %s' % absx.fmt(r)[:40])
+            if r[1] < 0:
+                # the terms are evaluated in the integers; an octet count that comes out negative is a subtraction that wraps (or
+                # panics) in the analysed code's unsigned arithmetic: not decided here
+                raise thresholds.Panics('a negative count: %s = %d at %d' % (absx.fmt(a)[:40], r[1], v))
+            n += k * int(r[1])
+        return n
+    n_rect = 0
+    for prim in (True, False):
+        if not per[prim]:
+            continue
+        inst = 'primitive' if prim else 'constructed'
+        undecided, wrong_id, wrong_len, holes = [], [], [], []
+        regions = []
+        for ida, la, val, why in paths[prim]:
+            li = {v: live(ida, IDVAR, v) for v in id_pts}
+            ll = {v: live(la, LVAR, v) for v in l_pts}
+            I_, J_ = [v for v in id_pts if li[v] is not False], [v for v in l_pts if ll[v] is not False]
+            regions.append((frozenset(I_), frozenset(J_)))
+            if not I_ or not J_:
+                continue
+            if None in li.values() or None in ll.values():
+                undecided.append('a condition of %s does not fold at tag number %s / content length %s' % (name, [v for v in id_pts if li[v] is None][:1], [v for v in l_pts if ll[v] is None][:1]))
+                continue
+            if val is None:
+                undecided.append('%s (live at tag number %d, content length %d)' % (why, I_[0], J_[0]))
+                continue
+            n_rect += 1
+            c, idt, lt = val
+            # a column and a row of the rectangle; the corner is moved to a point where the other side is right (if there is one),
+            # so that a wrong count is attributed to the part - identifier or length octets - it belongs to
+            try:
+                def header(i, l):
+                    return c + value(idt, IDVAR, i) + value(lt, LVAR, l)
+                def column(i):
+                    bad, good = [], []
+                    for l in J_:
+                        wi, wl_ = written_id(i), written_len(prim, l)
+                        if not isinstance(wi, int) or not isinstance(wl_, int):
+                            undecided.append('octets written at tag number %d, content length %d: %s' % (i, l, wi if not isinstance(wi, int) else wl_))
+                            return None, None
+                        if header(i, l) != wi + wl_:
+                            bad.append((l, header(i, l) - wi, wl_))
+                        else:
+                            good.append(l)
+                    return bad, good
+                def row(l):
+                    bad, good = [], []
+                    for i in I_:
+                        wi, wl_ = written_id(i), written_len(prim, l)
+                        if not isinstance(wi, int) or not isinstance(wl_, int):
+                            undecided.append('octets written at tag number %d, content length %d: %s' % (i, l, wi if not isinstance(wi, int) else wl_))
+                            return None, None
+                        if header(i, l) != wi + wl_:
+                            bad.append((i, header(i, l) - wl_, wi))
+                        else:
+                            good.append(i)
+                    return bad, good
+                bad_l, good_l = column(I_[0])
+                if bad_l is None:
+                    continue
+                if not good_l:
+                    b2, g2 = row(J_[0])
+                    if g2:
+                        bad_l, good_l = column(g2[0])
+                bad_i, good_i = row(good_l[0] if good_l else J_[0])
+                if bad_i is None:
+                    continue
+                wrong_len += [x for x in bad_l if x not in wrong_len]
+                wrong_id += [x for x in bad_i if x not in wrong_id]
+            except thresholds.Panics as e:
+                undecided.append('%s panics or is not a number where it is live: %s' % (name, e))
+        # coverage: the rectangles of the paths cover every (tag number, content length)
+        rows = {}
+        for v in id_pts:
+            rows.setdefault(frozenset(k for k, (I_, J_) in enumerate(regions) if v in I_), v)
+        cols = {}
+        for v in l_pts:
+            cols.setdefault(frozenset(k for k, (I_, J_) in enumerate(regions) if v in J_), v)
+        for ri, iv in rows.items():
+            for cj, lv in cols.items():
+                if not (ri & cj):
+                    holes.append((iv, lv))
+        ctx.add(R + '.decided', inst, loc(S.root), not undecided and not holes,
+                'the encoder declares, for a constructed element, the sum of %s(child) as its content length; that %s(t) is the number of octets appended for t is not decided: %s'
+                % (name, name, '; '.join(undecided[:3]) if undecided else 'no path of %s for (tag number, content length) = %s' % (name, holes[:3])))
+        ctx.add(R + '.length-octets', inst + ' child', loc(S.root), not wrong_len,
+                'decided at all %d change points of the content length L (0..2^64-1): the number of length octets %s predicts for a %s child differs from what the encoder writes for it, so the ENCLOSING element declares a content length that is not the number of content octets - at (L, length octets predicted, length octets written): %s'
+                % (len(l_pts), name, inst, ['(%d, %d, %d: %d vs %d beyond the first)' % (l, a, b, a - 1, b - 1) for l, a, b in wrong_len[:4]]))
+        ctx.add(R + '.identifier-octets', inst + ' child', loc(S.root), not wrong_id,
+                'decided at all %d change points of the tag number (0..2^64-1): the number of identifier octets %s predicts for a %s child differs from what write_type writes, so the enclosing element declares a content length that is not the number of content octets - at (tag number, identifier octets predicted, written): %s'
+                % (len(id_pts), name, inst, wrong_id[:4]))
+    ctx.floor(R, 'rectangles (path of the sizing function x structure) evaluated', n_rect, 2)
+
 def check_encoder(ctx, f, ref_len_octets, pts_wl):
     """B4 (encoder): what `encode_inner` leaves in its output buffer, read off the final buffer of every path (rules/rope.py) - not off
     the order of its calls.  On every path that returns Ok the buffer is
@@ -222,6 +515,7 @@ def check_encoder(ctx, f, ref_len_octets, pts_wl):
     # appended the encoding of the tag it was given)
     outs = rope.RopeInterp(f, E, sinks=(WT, WLN, E.path), unroll=1).run()
     per = {True: [], False: []}          # structure -> [(L-conditions, length items)] of the well-formed Ok paths
+    sized = []                           # sizing functions: a declared length computed as the sum of SZ(child) over the children
     n_ok = 0
     badform = []
     for o in outs:
@@ -243,6 +537,7 @@ def check_encoder(ctx, f, ref_len_octets, pts_wl):
         final = o.st.env.get(BUF, ('unk', 'no buffer'))
         why = None
         items, latom = [], None
+        used, measured = [], (lambda x: x)
         if final[0] != 'rope':
             why = 'what the output buffer holds is not decided (%s)' % absx.fmt(final)[:80]
         elif prim is None:
@@ -274,15 +569,27 @@ def check_encoder(ctx, f, ref_len_octets, pts_wl):
                 why = 'the buffer does not end with the encodings of the children, one after the other in order: %s' % absx.fmt(content)[:100]
             else:
                 latom = ('len', content[1]) if prim else ('seglen', content)
+                def measured(x):
+                    # a length that is computed instead of measured: the sum, over the children, of what a sizing function SZ
+                    # answers for the child stands for the number of octets the encoder appends for the children - under the
+                    # obligation, decided once by check_sizing, that SZ(t) is the number of octets it appends for t
+                    def fn(y):
+                        z = None if prim else sizing_sum(y, content[1], f)
+                        if z is not None:
+                            if z not in used:
+                                used.append(z)
+                            return rope.mk_lin({latom: 1}, 0)
+                        return None
+                    return replace_terms(x, fn)
                 for sg in segs[2:-1]:
                     if sg[0] == 'emit' and sg[1] == WLN and len(sg[2]) == 1:
-                        if rope.lin_of(sg[2][0]) == ({latom: 1}, 0):
+                        if rope.lin_of(measured(sg[2][0])) == ({latom: 1}, 0):
                             items.append(('wl',))
                         else:
                             why = 'write_length is given %s, which is not (formally) the length of the content that follows' % absx.fmt(sg[2][0])[:80]
                     elif sg[0] == 'byte' and sg[1][0] == 'lit' and isinstance(sg[1][1], int) and not isinstance(sg[1][1], bool):
                         items.append(('const', sg[1][1] & 0xff))
-                    elif sg[0] == 'byte' and sg[1][0] == 'cast' and hirq.strip_refs(str(sg[1][2] or '')) == 'u8' and rope.lin_of(sg[1][1]) == ({latom: 1}, 0):
+                    elif sg[0] == 'byte' and sg[1][0] == 'cast' and hirq.strip_refs(str(sg[1][2] or '')) == 'u8' and rope.lin_of(measured(sg[1][1])) == ({latom: 1}, 0):
                         items.append(('low8',))
                     else:
                         why = 'between identifier and content there is %s: neither write_length(content length) nor an octet that is a constant or the content length' % absx.fmt(sg)[:80]
@@ -296,12 +603,13 @@ def check_encoder(ctx, f, ref_len_octets, pts_wl):
         if latom is None:
             conds.append((('bin', 'Eq', LVAR, ('lit', 0)), True))
         for a, t in (o.st.pc if latom is not None else ()):
-            a2 = length_in_var(sem.strip_site(a), latom)
+            a2 = length_in_var(sem.strip_site(measured(a)), latom)
             if sem.has(a2, lambda x: x == LVAR) or (a2 != sem.strip_site(a) and sem.has(a2, lambda x: x[0] == 'unk')):
                 conds.append((a2, t))
                 if not thresholds.atom_ok(a2, LVAR):
                     badform.append(absx.fmt(a2))
         per[prim].append((conds, items))
+        sized += [z for z in used if z not in sized]
     ctx.floor('B4', 'success paths of the encoder', n_ok, 2)
     ctx.add('B4.encoder-conditions-are-thresholds', 'encode_inner', loc(E.root), not badform,
             'the form of the length octets depends on the content length through something other than a comparison with a constant: %s' % badform[:3])
@@ -309,6 +617,8 @@ def check_encoder(ctx, f, ref_len_octets, pts_wl):
         return
     atoms = [a for k in per for conds, items in per[k] for a, t in conds]
     pts = sorted(set(pts_wl) | set(thresholds.change_points(atoms, LVAR, 0, 2 ** 64 - 1)))
+    for z in sized:
+        check_sizing(ctx, f, E, z, TAG, per, pts, pts_wl, WT, WLN)
     for prim in (True, False):
         if not per[prim]:
             continue
